@@ -1,9 +1,29 @@
 import OsacaVerif.Model.LCD
 import OsacaVerif.Spec.Deps
 import OsacaVerif.Gen.Consts
+import OsacaVerif.Lemmas.LCDPaths
+import OsacaVerif.Lemmas.LCDPost
+import OsacaVerif.Lemmas.DGEdges
+import OsacaVerif.Lemmas.Winding
+import OsacaVerif.Lemmas.EdgeLocal
+import OsacaVerif.Lemmas.LcdChar
+import OsacaVerif.Lemmas.CycleNorm
 /-
   C05 — Loop-carried dependencies are exactly the cross-iteration dependency cycles.
   (Model: `LCD.lcd`; independent oracle: `Spec.cycles`.)
+
+  Proved here, for kernels of any length (`WFKernel`: strictly increasing line numbers):
+  * `offset_ok`, `double_wf`, `emissions_forward` — the doubled kernel is well-formed, its graph a DAG;
+  * `pathsFrom_sound` / `pathsFrom_complete`, `fuel_suffices`, `lcd_paths_exact` — the search returns
+    exactly the simple paths `i ⇝ i + offset`;
+  * `entry_latency`, `post_dedup`, `post_represents` — the post-processing;
+  * `path_increasing`, `winding1_sorted`, `lcd_entry_shape` — one boundary crossing, sorted normal form;
+  * `dg_local`, `dg_local_copies` — the edge relation is a function of the stream segment;
+  * `lcd_sound`, `lcd_complete`, `lcd_sound_normal`, `lcd_key_collision_free`, `lcd_reported_once` —
+    the reported entries are exactly the winding-1 dependency cycles of the stream `k^ω`
+    (`IsStreamCycle (streamDep …)`), each reported once with its members and latency sum.
+  Not proved: that the executable oracle `Spec.cycles` (used by the harness on explicit edge lists)
+  enumerates the same `IsStreamCycle` objects — the two are compared by the differential check only.
 -/
 namespace OsacaVerif.Props.C05
 open OsacaVerif OsacaVerif.DG OsacaVerif.LCD
@@ -67,6 +87,515 @@ theorem sortPairs_perm (l : List (Nat × Rat)) : (sortPairs l).Perm l := by
   | cons x xs ih =>
     simp only [sortPairs, List.foldr_cons]
     exact (insertPair_perm x _).trans (List.Perm.cons x ih)
+
+/-! ### the path search returns exactly the simple paths -/
+
+/-- **pathsFrom_sound** (∀ edge lists, fuels, visited sets): every path the depth-first search
+    returns is a genuine simple path from `cur` to `tgt` — consecutive elements are edges of `es`
+    (`LCD.succs`) carrying the recorded weights, the last edge enters `tgt`, no vertex is repeated,
+    `tgt` is not passed through — and it never enters a vertex of `visited`; it has at most `fuel`
+    edges.  (`cur ∈ visited` is how the search is always called: `lcd` starts with `[i.line]`.) -/
+theorem pathsFrom_sound (es : List Edge) (tgt fuel cur : Nat) (visited : List Nat) (hcur : cur ∈ visited)
+    (p : List (Nat × Rat)) (hp : p ∈ pathsFrom es tgt fuel cur visited) :
+    IsSimplePath es cur tgt p ∧ Avoids visited p ∧ p.length ≤ fuel := by
+  obtain ⟨h1, h2, h3, h4, h5⟩ := pathsFrom_sound_aux es tgt fuel cur visited p hp
+  refine ⟨⟨h1, h2, ?_, fun v hv => (h4 v hv).1⟩, fun v hv => (h4 v hv).2, h5⟩
+  cases hv : verts p with
+  | nil => simp
+  | cons a t =>
+    rw [hv] at h1 h3 h4
+    simp only [List.head?_cons, Option.some.injEq] at h1
+    subst h1
+    rw [List.nodup_cons]
+    exact ⟨fun hm => (h4 a hm).2 hcur, h3⟩
+
+/-- **pathsFrom_complete**: every simple path `cur ⇝ tgt` with at most `fuel` edges that avoids
+    `visited` is returned by the search — nothing is missed. -/
+theorem pathsFrom_complete (es : List Edge) (tgt fuel cur : Nat) (visited : List Nat) (p : List (Nat × Rat))
+    (hs : IsSimplePath es cur tgt p) (ha : Avoids visited p) (hl : p.length ≤ fuel) :
+    p ∈ pathsFrom es tgt fuel cur visited := by
+  obtain ⟨h1, h2, h3, h4⟩ := hs
+  refine pathsFrom_complete_aux es tgt fuel cur visited p h1 h2 ?_ (fun v hv => ⟨h4 v hv, ha v hv⟩) hl
+  cases hv : verts p with
+  | nil => simp
+  | cons a t => rw [hv] at h3; exact (List.nodup_cons.mp h3).2
+
+/-- the search result *is* the set of simple paths of length ≤ fuel avoiding `visited` -/
+theorem pathsFrom_iff (es : List Edge) (tgt fuel cur : Nat) (visited : List Nat) (hcur : cur ∈ visited)
+    (p : List (Nat × Rat)) :
+    p ∈ pathsFrom es tgt fuel cur visited ↔ IsSimplePath es cur tgt p ∧ Avoids visited p ∧ p.length ≤ fuel :=
+  ⟨pathsFrom_sound es tgt fuel cur visited hcur p, fun ⟨a, b, c⟩ => pathsFrom_complete es tgt fuel cur visited p a b c⟩
+
+-- non-vacuity: in the diamond 1→2→4, 1→3→4 (plus a back edge 3→1 and a load edge) both simple
+-- paths 1 ⇝ 4 satisfy the predicate and are returned; the walk through the back edge is not simple
+example :
+    let e (a b : Nat) (w : Rat) : Edge := { src := ⟨a, false⟩, dst := ⟨b, false⟩, w := w }
+    let es := [e 1 2 1, e 1 3 2, e 2 4 3, e 3 4 5, e 3 1 7, { src := ⟨1, true⟩, dst := ⟨1, false⟩, w := 9 }]
+    IsSimplePath es 1 4 [(1, 1), (2, 3)] ∧ Avoids [1] [(1, 1), (2, 3)] ∧
+    IsSimplePath es 1 4 [(1, 2), (3, 5)] ∧
+    ¬ IsSimplePath es 1 4 [(1, 2), (3, 7), (1, 1), (2, 3)] ∧
+    pathsFrom es 4 5 1 [1] = [[(1, 1), (2, 3)], [(1, 2), (3, 5)]] := by
+  decide +kernel
+
+/-! ### the post-processing: members, latency, de-duplication -/
+
+/-- **entry_latency** (∀ offsets, ∀ path lists): every reported entry comes from one of the found
+    paths `p`; its `(lines, lats)` are that path's normal form (`normPath`: edges mapped back with
+    `s ≥ off ↦ s − off`, sorted); hence its `lines` are exactly the path's source vertices mapped
+    back (a permutation of them), listed ascending, its `lats` are the edge weights in that order and
+    its `latency` is the sum of the edge weights along the path (summed in ℚ, order irrelevant). -/
+theorem entry_latency (off : Nat) (paths : List (List (Nat × Rat))) (e : Entry) (he : e ∈ post off paths) :
+    ∃ p ∈ paths, e.lines = (normPath off p).map (·.1) ∧ e.lats = (normPath off p).map (·.2) ∧
+      e.latency = (p.map (·.2)).sum ∧ e.latency = e.lats.sum ∧
+      e.lines.Perm ((verts p).map (backLine off)) ∧ e.lines.Pairwise (· ≤ ·) ∧
+      (e.lines.zip e.lats).Perm (p.map (back off)) := by
+  rw [post_eq, List.mem_map] at he
+  obtain ⟨n, hn, rfl⟩ := he
+  obtain ⟨hn, _⟩ := (mem_dedup [] _ n).mp hn
+  obtain ⟨p, hp, rfl⟩ := List.mem_map.mp hn
+  have hperm : (normPath off p).Perm (p.map (back off)) := sortPairs_perm' _
+  refine ⟨p, hp, rfl, rfl, ?_, rfl, ?_, le2_lines (sortPairs_sorted _), ?_⟩
+  · have := sum_perm (hperm.map (·.2))
+    simpa [mkEntry, back, Function.comp_def] using this
+  · have := hperm.map (·.1)
+    simpa [mkEntry, back, verts, Function.comp_def] using this
+  · simpa [mkEntry, zip_fst_snd] using hperm
+
+/-- **post_dedup**: no two reported entries have the same (lines, latencies) lists — each normal
+    form is reported at most once. -/
+theorem post_dedup (off : Nat) (paths : List (List (Nat × Rat))) :
+    (post off paths).Pairwise (fun a b => ¬ (a.lines = b.lines ∧ a.lats = b.lats)) := by
+  rw [post_eq, List.pairwise_map]
+  refine (dedup_nodup [] _).imp ?_
+  intro a b hab h
+  exact hab (pairs_ext h.1 h.2)
+
+/-- **post_represents**: every found path is represented — there is an entry carrying its normal
+    form — and by exactly one entry (`countP … = 1`). -/
+theorem post_represents (off : Nat) (paths : List (List (Nat × Rat))) (p : List (Nat × Rat)) (hp : p ∈ paths) :
+    (∃ e ∈ post off paths, e.lines = (normPath off p).map (·.1) ∧ e.lats = (normPath off p).map (·.2)) ∧
+    (post off paths).countP (fun e => decide (e.lines = (normPath off p).map (·.1) ∧
+      e.lats = (normPath off p).map (·.2))) = 1 := by
+  have hmem : normPath off p ∈ post.dedup [] (paths.map (normPath off)) :=
+    (mem_dedup [] _ _).mpr ⟨List.mem_map.mpr ⟨p, hp, rfl⟩, by simp⟩
+  refine ⟨⟨mkEntry (normPath off p), by rw [post_eq]; exact List.mem_map.mpr ⟨_, hmem, rfl⟩, rfl, rfl⟩, ?_⟩
+  rw [post_eq, List.countP_map]
+  have hc := (dedup_nodup [] (paths.map (normPath off))).count (a := normPath off p)
+  rw [if_pos hmem, List.count_eq_countP] at hc
+  rw [← hc]
+  apply List.countP_congr
+  intro x _
+  simp only [Function.comp_apply]
+  rw [decide_eq_true_iff, beq_iff_eq]
+  simp only [mkEntry]
+  constructor
+  · rintro ⟨h1, h2⟩; exact pairs_ext h1 h2
+  · rintro rfl; exact ⟨rfl, rfl⟩
+
+-- non-vacuity: two rotations of the same cycle (found from line 3 and from line 5) and a second
+-- cycle: mapped back and sorted the first two coincide and are reported once, latency 1 + 4 = 5
+example :
+    (post 1000 [[(3, 1), (5, 4)], [(5, 4), (1003, 1)], [(4, 2)]]).map (fun e => (e.lines, e.lats, e.latency)) =
+      [([3, 5], [1, 4], 5), ([4], [2], 2)] := by
+  decide +kernel
+
+/-! ### forward edges, one boundary crossing, sorted normal form -/
+
+/-- **emissions_forward** (∀ kernels with strictly increasing lines): every edge of the dependency
+    graph whose source is an instruction node goes to a strictly larger line (the graph is a DAG in
+    line order); with `dedupLast_subset` and `Props.C03.findDepending_forward`. -/
+theorem emissions_forward (isa : Isa) (fd : Bool) (par : Params) (k : List Ins) (hwf : WFKernel k) :
+    ForwardEdges (create isa fd par k) := by
+  intro e he hs
+  exact (emissions_shape isa fd par k hwf e (dedupLast_subset _ e he)).2.1 hs
+
+/-- every edge of the graph joins lines of the kernel and enters an instruction node -/
+theorem create_nodes (isa : Isa) (fd : Bool) (par : Params) (k : List Ins) (hwf : WFKernel k) :
+    ∀ e ∈ create isa fd par k, e.dst.load = false ∧ (∃ p ∈ k, p.line = e.src.line) ∧ (∃ c ∈ k, c.line = e.dst.line) := by
+  intro e he
+  have := emissions_shape isa fd par k hwf e (dedupLast_subset _ e he)
+  exact ⟨this.1, this.2.2.2⟩
+
+/-- **double_wf**: the doubled kernel (second copy renumbered by the offset) again has strictly
+    increasing lines — because the offset exceeds every line (`offset_ok`). -/
+theorem double_wf (floor : Nat) (k : List Ins) (hwf : WFKernel k) : WFKernel (double (offsetOf floor k) k) := by
+  unfold WFKernel double at *
+  rw [List.map_append, List.pairwise_append]
+  refine ⟨hwf, ?_, ?_⟩
+  · rw [List.map_map, List.pairwise_map]
+    rw [List.pairwise_map] at hwf
+    exact hwf.imp (fun h => by simp only [Function.comp_apply]; omega)
+  · intro a ha b hb
+    obtain ⟨x, hx, rfl⟩ := List.mem_map.mp ha
+    obtain ⟨y', hy', rfl⟩ := List.mem_map.mp hb
+    obtain ⟨y, _, rfl⟩ := List.mem_map.mp hy'
+    have := offset_ok floor k x hx
+    simp only; omega
+
+/-- **path_increasing**: on a graph with forward edges every path the search returns has strictly
+    increasing vertices, all smaller than the target. -/
+theorem path_increasing (es : List Edge) (hf : ForwardEdges es) (tgt fuel cur : Nat) (visited : List Nat)
+    (p : List (Nat × Rat)) (hp : p ∈ pathsFrom es tgt fuel cur visited) :
+    (verts p ++ [tgt]).Pairwise (· < ·) :=
+  walk_increasing es hf tgt p (pathsFrom_sound_aux es tgt fuel cur visited p hp).2.1
+
+/-- **winding1_sorted**: a path `i ⇝ i + off` over forward edges crosses from the first kernel copy
+    (`< off`) to the second (`≥ off`) exactly once — it *is* its first-copy part followed by its
+    second-copy part; mapped back modulo `off` and sorted it is the second part followed by the first
+    (listed from its smallest line it is ascending); the resulting lines are strictly ascending, so
+    every instruction occurs at most once, and the path's vertices are recovered from its start and
+    its member lines: the key (the line list) determines the member set and, with the start, the path. -/
+theorem winding1_sorted (es : List Edge) (hf : ForwardEdges es) (off i fuel : Nat) (visited : List Nat)
+    (p : List (Nat × Rat)) (hp : p ∈ pathsFrom es (i + off) fuel i visited) :
+    p = firstCopy off p ++ secondCopy off p ∧
+    normPath off p = (secondCopy off p).map (back off) ++ firstCopy off p ∧
+    ((normPath off p).map (·.1)).Pairwise (· < ·) ∧
+    verts p = ((normPath off p).map (·.1)).filter (fun l => i ≤ l) ++
+      (((normPath off p).map (·.1)).filter (fun l => l < i)).map (· + off) := by
+  have hinc := path_increasing es hf (i + off) fuel i visited p hp
+  have hhead := (pathsFrom_sound_aux es (i + off) fuel i visited p hp).1
+  obtain ⟨h1, h2, h3⟩ := winding_norm off i p hinc hhead
+  exact ⟨h1, h2, h3, verts_of_lines off i p hinc hhead⟩
+
+/-- the doubled graph the LCD search runs on -/
+def lcdGraph (isa : Isa) (fd : Bool) (par : Params) (floor : Nat) (k : List Ins) : List Edge :=
+  create isa fd par (double (offsetOf floor k) k)
+
+/-- **fuel_suffices**: in the doubled graph of a well-formed kernel every simple path has at most
+    `2·|k|` edges, so the fuel `2·|k| + 1` of `lcd` never cuts a path off. -/
+theorem fuel_suffices (isa : Isa) (fd : Bool) (par : Params) (floor : Nat) (k : List Ins) (hwf : WFKernel k)
+    (src tgt : Nat) (p : List (Nat × Rat)) (hp : IsSimplePath (lcdGraph isa fd par floor k) src tgt p) :
+    p.length ≤ 2 * k.length := by
+  obtain ⟨_, hw, hn, _⟩ := hp
+  have hsub : verts p ⊆ (double (offsetOf floor k) k).map (·.line) := by
+    intro v hv
+    obtain ⟨x, hx, rfl⟩ := List.mem_map.mp hv
+    have hmem : ∀ (q : List (Nat × Rat)), IsWalk (lcdGraph isa fd par floor k) tgt q → ∀ y ∈ q,
+        ∃ m w, (m, w) ∈ succs (lcdGraph isa fd par floor k) y.1 := by
+      intro q
+      induction q with
+      | nil => intro _ y hy; cases hy
+      | cons z zs ih =>
+        intro hq y hy
+        rcases List.mem_cons.mp hy with rfl | hy
+        · exact ⟨_, _, hq.1⟩
+        · exact ih hq.2 y hy
+    obtain ⟨m, w, hmw⟩ := hmem p hw x hx
+    simp only [succs, List.mem_filterMap] at hmw
+    obtain ⟨e, he, hc⟩ := hmw
+    by_cases hcond : (!e.src.load && e.src.line == x.1 && !e.dst.load) = true
+    · simp only [Bool.and_eq_true, Bool.not_eq_true', beq_iff_eq] at hcond
+      obtain ⟨_, ⟨q, hq, hql⟩, _⟩ := create_nodes isa fd par _ (double_wf floor k hwf) e he
+      exact List.mem_map.mpr ⟨q, hq, by rw [hql, hcond.1.2]⟩
+    · rw [if_neg hcond] at hc; cases hc
+  have := hn.length_le_of_subset hsub
+  simpa [verts, double, Nat.two_mul] using this
+
+/-- **lcd_paths_exact**: for a well-formed kernel the paths `lcd` hands to the post-processing are
+    exactly the simple paths `line ⇝ line + offset` of the doubled graph, for the lines of the kernel
+    (no fuel bound left in the statement). -/
+theorem lcd_paths_exact (isa : Isa) (fd : Bool) (par : Params) (floor : Nat) (k : List Ins) (hwf : WFKernel k)
+    (i : Ins) (p : List (Nat × Rat)) :
+    p ∈ pathsFrom (lcdGraph isa fd par floor k) (i.line + offsetOf floor k) (2 * k.length + 1) i.line [i.line] ↔
+      IsSimplePath (lcdGraph isa fd par floor k) i.line (i.line + offsetOf floor k) p := by
+  rw [pathsFrom_iff _ _ _ _ _ (by simp)]
+  constructor
+  · exact fun h => h.1
+  · intro h
+    refine ⟨h, ?_, by have := fuel_suffices isa fd par floor k hwf _ _ p h; omega⟩
+    intro v hv hc
+    obtain ⟨h1, _, h3, _⟩ := h
+    cases hp : verts p with
+    | nil => rw [hp] at hv; cases hv
+    | cons a t =>
+      rw [hp] at h1 h3 hv
+      simp only [List.head?_cons, Option.some.injEq] at h1
+      simp only [List.mem_singleton] at hc
+      subst h1 hc
+      exact (List.nodup_cons.mp h3).1 hv
+
+/-- **lcd_entry_shape**: every entry `lcd` reports for a well-formed kernel comes from a simple
+    path `i ⇝ i + offset` (for an instruction `i` of the kernel) in the doubled graph; its lines are
+    strictly ascending (each member once), they are that path's vertices mapped back, and its
+    latency is the sum of the path's edge weights. -/
+theorem lcd_entry_shape (isa : Isa) (fd : Bool) (par : Params) (floor : Nat) (k : List Ins) (hwf : WFKernel k)
+    (e : Entry) (he : e ∈ lcd isa fd par floor k) :
+    ∃ i ∈ k, ∃ p, IsSimplePath (lcdGraph isa fd par floor k) i.line (i.line + offsetOf floor k) p ∧
+      e.lines = (normPath (offsetOf floor k) p).map (·.1) ∧ e.lats = (normPath (offsetOf floor k) p).map (·.2) ∧
+      e.lines.Pairwise (· < ·) ∧ e.lines.Perm ((verts p).map (backLine (offsetOf floor k))) ∧
+      e.latency = (p.map (·.2)).sum := by
+  obtain ⟨p, hp, h1, h2, h3, _, h5, _, _⟩ := entry_latency _ _ e he
+  obtain ⟨i, hi, hp⟩ := List.mem_flatMap.mp hp
+  have hf : ForwardEdges (lcdGraph isa fd par floor k) := emissions_forward isa fd par _ (double_wf floor k hwf)
+  have hw := winding1_sorted _ hf _ _ _ _ p hp
+  refine ⟨i, hi, p, (lcd_paths_exact isa fd par floor k hwf i p).mp hp, h1, h2, ?_, h5, h3⟩
+  rw [h1]; exact hw.2.2.1
+
+-- non-vacuity: a concrete well-formed kernel (lines 3 < 4 < 7), its doubled kernel is well-formed,
+-- its graph has forward edges; a concrete winding-1 path and its normal form
+example :
+    let r (n : String) : Op := .reg { name := Text.ofString n }
+    let mk (line : Nat) (src dst sd : List Op) (lat : Rat) : Ins :=
+      { line := line, src := src, dst := dst, srcDst := sd, lat := lat, latWoLoad := none, hasLd := false,
+        isLd := false, changes := [], changesPost := [] }
+    let k := [mk 3 [r "rbx"] [r "rax"] [] 4, mk 4 [r "rax"] [r "rcx"] [] 1, mk 7 [r "rcx"] [r "rbx"] [] 2]
+    WFKernel k ∧ WFKernel (double (offsetOf 1000 k) k) ∧ ForwardEdges (create .x86 false {} (double (offsetOf 1000 k) k)) ∧
+    pathsFrom (lcdGraph .x86 false {} 1000 k) 1004 7 4 [4] = [[(4, 1), (7, 2), (1003, 4)]] ∧
+    normPath 1000 [(4, 1), (7, 2), (1003, 4)] = [(3, 4), (4, 1), (7, 2)] ∧
+    (lcd .x86 false {} 1000 k).map (fun e => (e.lines, e.latency)) = [([3, 4, 7], 7)] := by
+  decide +kernel
+
+/-! ### locality of the edge relation -/
+
+/-- **dg_local** (∀ well-formed kernels, ∀ decompositions `K = pre ++ p :: seg ++ c :: more`): the
+    edge `p → c` is in the graph of `K` with weight `w` iff `depW p seg c = some w`, where `depW`
+    looks only at the producer, the segment strictly between, and the consumer — never at `pre` or
+    `more`, and never at line numbers (`depW_erase`). -/
+theorem dg_local (isa : Isa) (fd : Bool) (par : Params) (pre : List Ins) (p : Ins) (seg : List Ins) (c : Ins)
+    (more : List Ins) (hwf : WFKernel (pre ++ p :: (seg ++ c :: more))) (w : Rat) :
+    (({ src := ⟨p.line, false⟩, dst := ⟨c.line, false⟩, w := w } : Edge) ∈
+        create isa fd par (pre ++ p :: (seg ++ c :: more)) ↔ depW isa fd par p seg c = some w) ∧
+    depW isa fd par (eraseLine p) (seg.map eraseLine) (eraseLine c) = depW isa fd par p seg c :=
+  ⟨edge_local isa fd par pre p seg c more hwf w, depW_erase isa fd par p seg c⟩
+
+/-- **dg_local_copies**: in the doubled kernel the sub-graphs on the first copy and on the second
+    copy both coincide with the graph of the kernel itself: the edge `p → c` of `k`, the edge
+    `p → c` of the first copy and the edge `p + off → c + off` of the second copy exist together and
+    carry the same weight. -/
+theorem dg_local_copies (isa : Isa) (fd : Bool) (par : Params) (floor : Nat) (pre : List Ins) (p : Ins)
+    (seg : List Ins) (c : Ins) (more : List Ins) (hwf : WFKernel (pre ++ p :: (seg ++ c :: more))) (w : Rat) :
+    let k := pre ++ p :: (seg ++ c :: more)
+    let off := offsetOf floor k
+    ((({ src := ⟨p.line, false⟩, dst := ⟨c.line, false⟩, w := w } : Edge) ∈ create isa fd par k) ↔
+      depW isa fd par p seg c = some w) ∧
+    ((({ src := ⟨p.line, false⟩, dst := ⟨c.line, false⟩, w := w } : Edge) ∈ create isa fd par (double off k)) ↔
+      depW isa fd par p seg c = some w) ∧
+    ((({ src := ⟨p.line + off, false⟩, dst := ⟨c.line + off, false⟩, w := w } : Edge) ∈
+      create isa fd par (double off k)) ↔ depW isa fd par p seg c = some w) := by
+  intro k off
+  have hwfK := double_wf floor k hwf
+  refine ⟨edge_local isa fd par pre p seg c more hwf w, ?_, ?_⟩
+  · have e : double off k = pre ++ p :: (seg ++ c :: (more ++ k.map (fun i => { i with line := i.line + off }))) := by
+      simp [double, k]
+    rw [e] at hwfK ⊢
+    exact edge_local isa fd par pre p seg _ _ hwfK w
+  · let sh : Ins → Ins := fun i => { i with line := i.line + off }
+    have e : double off k = (k ++ pre.map sh) ++ sh p :: (seg.map sh ++ sh c :: more.map sh) := by
+      simp [double, k, sh]
+    rw [e] at hwfK ⊢
+    have h := edge_local isa fd par (k ++ pre.map sh) (sh p) (seg.map sh) (sh c) (more.map sh) hwfK w
+    have h2 : depW isa fd par (sh p) (seg.map sh) (sh c) = depW isa fd par p seg c := by
+      rw [← depW_erase isa fd par (sh p), ← depW_erase isa fd par p, List.map_map]
+      rfl
+    rw [← h2]
+    exact h
+
+/-! ### the reported entries are exactly the winding-1 dependency cycles of the stream -/
+
+/-- members of a stream cycle as (line of the body instruction, edge latency leaving it) -/
+def cycleMembers (k : List Ins) (a : List (Nat × Rat)) : List (Nat × Rat) :=
+  a.map (fun x => (lineAt k (x.1 % k.length), x.2))
+
+/-- **lcd_sound** (∀ well-formed kernels): every reported entry is a dependency cycle of the
+    infinite repetition of the body — an ascending list of stream positions starting inside the
+    first iteration, each depending (`streamDep`, the dependency relation of `k^ω`) on the previous
+    one and closed by the dependency of the first instruction's next occurrence on the last; the
+    entry's (line, latency) pairs are exactly the cycle's members and its latency is the sum of the
+    edge latencies along the cycle. -/
+theorem lcd_sound (isa : Isa) (fd : Bool) (par : Params) (floor : Nat) (k : List Ins) (hwf : WFKernel k)
+    (e : Entry) (he : e ∈ lcd isa fd par floor k) :
+    ∃ a, IsStreamCycle (streamDep isa fd par k) k.length a ∧ StartsBelow k.length a ∧
+      (e.lines.zip e.lats).Perm (cycleMembers k a) ∧ e.latency = (a.map (·.2)).sum := by
+  obtain ⟨p, hp, _, _, hlat, _, _, _, hzip⟩ := entry_latency _ _ e he
+  obtain ⟨i, hi, hp⟩ := List.mem_flatMap.mp hp
+  have hwfK := double_wf floor k hwf
+  have hsimple := (lcd_paths_exact isa fd par floor k hwf i p).mp hp
+  obtain ⟨s, hs, rfl⟩ := List.getElem_of_mem hi
+  have hl1 : k[s].line = lineAt (double (offsetOf floor k) k) s := by
+    rw [lineAt_double_first _ k s hs, lineAt_lt k s hs]
+  have hl2 : k[s].line + offsetOf floor k = lineAt (double (offsetOf floor k) k) (s + k.length) := by
+    rw [lineAt_double_second _ k s hs, lineAt_lt k s hs]
+  obtain ⟨hhead, hwalk, _, _⟩ := hsimple
+  rw [hl2] at hwalk
+  obtain ⟨a, rfl, ha, hc⟩ := walk_to_chain isa fd par _ k hwfK (s + k.length) (by omega) p hwalk
+  cases a with
+  | nil => simp [toLine, verts] at hhead
+  | cons x rest =>
+    have hx : x.1 = s := by
+      have h1 : lineAt (double (offsetOf floor k) k) x.1 = lineAt (double (offsetOf floor k) k) s := by
+        rw [← hl1]; simpa [toLine, verts] using hhead
+      have := ha x List.mem_cons_self
+      exact wf_lineAt_inj _ hwfK _ _ (by rw [double_length]; exact this) (by rw [double_length]; omega) h1
+    refine ⟨x :: rest, ?_, ?_, ?_, ?_⟩
+    · show Chain _ (x.1 + k.length) (x :: rest)
+      rw [hx]; exact hc
+    · show x.1 < k.length
+      omega
+    · refine hzip.trans (List.Perm.of_eq ?_)
+      simp only [toLine, cycleMembers, List.map_map]
+      apply List.map_congr_left
+      intro y hy
+      simp only [Function.comp_apply, back]
+      rw [backLine_double _ k (offset_ok floor k) y.1 (ha y hy)]
+    · rw [hlat]; simp [toLine, Function.comp_def]
+
+/-- **lcd_complete** (∀ well-formed kernels): conversely every dependency cycle of the stream that
+    starts inside the first iteration is reported: there is an entry with exactly its members and
+    the sum of its edge latencies.  (Together with `post_dedup` — entries are pairwise different —
+    and `lcd_entry_shape` — strictly ascending lines — each cycle, as a member set, is reported once.) -/
+theorem lcd_complete (isa : Isa) (fd : Bool) (par : Params) (floor : Nat) (k : List Ins) (hwf : WFKernel k)
+    (a : List (Nat × Rat)) (hcyc : IsStreamCycle (streamDep isa fd par k) k.length a) (hstart : StartsBelow k.length a) :
+    ∃ e ∈ lcd isa fd par floor k, (e.lines.zip e.lats).Perm (cycleMembers k a) ∧ e.latency = (a.map (·.2)).sum := by
+  cases a with
+  | nil => exact absurd hcyc (fun h => h)
+  | cons x rest =>
+    have hwfK := double_wf floor k hwf
+    have hxn : x.1 < k.length := hstart
+    have hb := cycle_bounds _ _ x rest hcyc
+    have ha : ∀ y ∈ x :: rest, y.1 < 2 * k.length := fun y hy => by have := (hb y hy).2; omega
+    have hc : Chain (streamDep isa fd par k) (x.1 + k.length) (x :: rest) := hcyc
+    have hwalk := chain_to_walk isa fd par (offsetOf floor k) k hwfK (x.1 + k.length) (by omega) (x :: rest) ha hc
+    have hl1 : lineAt (double (offsetOf floor k) k) x.1 = k[x.1].line := by
+      rw [lineAt_double_first _ k x.1 hxn, lineAt_lt k x.1 hxn]
+    have hl2 : lineAt (double (offsetOf floor k) k) (x.1 + k.length) = k[x.1].line + offsetOf floor k := by
+      rw [lineAt_double_second _ k x.1 hxn, lineAt_lt k x.1 hxn]
+    rw [hl2] at hwalk
+    have hf : ForwardEdges (lcdGraph isa fd par floor k) := emissions_forward isa fd par _ hwfK
+    have hinc := walk_increasing _ hf _ _ hwalk
+    have hsimple : IsSimplePath (lcdGraph isa fd par floor k) k[x.1].line (k[x.1].line + offsetOf floor k)
+        (toLine (double (offsetOf floor k) k) (x :: rest)) := by
+      have hpw := List.pairwise_append.mp hinc
+      refine ⟨by simp [toLine, verts, hl1], hwalk, ?_, ?_⟩
+      · exact hpw.1.imp (fun h => Nat.ne_of_lt h)
+      · intro v hv
+        have := hpw.2.2 v (List.mem_of_mem_tail hv) _ (List.mem_singleton.mpr rfl)
+        omega
+    have hp := (lcd_paths_exact isa fd par floor k hwf k[x.1] _).mpr hsimple
+    have hmem : toLine (double (offsetOf floor k) k) (x :: rest) ∈
+        k.flatMap (fun i => pathsFrom (lcdGraph isa fd par floor k) (i.line + offsetOf floor k) (2 * k.length + 1) i.line [i.line]) :=
+      List.mem_flatMap.mpr ⟨k[x.1], List.getElem_mem hxn, hp⟩
+    obtain ⟨⟨e, he, hlines, hlats⟩, _⟩ := post_represents (offsetOf floor k) _ _ hmem
+    refine ⟨e, he, ?_, ?_⟩
+    · rw [hlines, hlats, zip_fst_snd]
+      refine (sortPairs_perm' _).trans (List.Perm.of_eq ?_)
+      simp only [toLine, cycleMembers, List.map_map]
+      apply List.map_congr_left
+      intro y hy
+      simp only [Function.comp_apply, back]
+      rw [backLine_double _ k (offset_ok floor k) y.1 (ha y hy)]
+    · obtain ⟨_, _, _, _, _, h1, _⟩ := entry_latency _ _ e he
+      rw [h1, hlats]
+      have := sum_perm ((sortPairs_perm' ((toLine (double (offsetOf floor k) k) (x :: rest)).map (back (offsetOf floor k)))).map (·.2))
+      rw [normPath, this]
+      simp [toLine, back, Function.comp_def]
+
+/-! ### each cycle is reported once: the key (the line list) determines the entry -/
+
+/-- **lcd_sound_normal** (∀ well-formed kernels): every reported entry *is*, literally, a dependency
+    cycle of the stream in normal form: positions `b₀ < b₁ < … < bₘ₋₁` inside the body, each
+    depending on the previous one and `b₀`'s next occurrence depending on `bₘ₋₁`; the entry's lines
+    are the lines at these positions (in this order), its latencies the edge latencies leaving them. -/
+theorem lcd_sound_normal (isa : Isa) (fd : Bool) (par : Params) (floor : Nat) (k : List Ins) (hwf : WFKernel k)
+    (e : Entry) (he : e ∈ lcd isa fd par floor k) :
+    ∃ b, IsStreamCycle (streamDep isa fd par k) k.length b ∧ (∀ y ∈ b, y.1 < k.length) ∧
+      (verts b).Pairwise (· < ·) ∧ e.lines = b.map (fun y => lineAt k y.1) ∧ e.lats = b.map (·.2) ∧
+      e.latency = (b.map (·.2)).sum := by
+  obtain ⟨a, hc, hst, hperm, _⟩ := lcd_sound isa fd par floor k hwf e he
+  obtain ⟨p, _, hl, ht, _, hsum, _⟩ := entry_latency _ _ e he
+  obtain ⟨hbc, hblt, hbinc, hbperm⟩ := cycle_normal _ k.length (streamDep_periodic isa fd par k) a hc hst
+  have hzip : e.lines.zip e.lats = normPath (offsetOf floor k) p := by rw [hl, ht, zip_fst_snd]
+  -- the candidate: the normal-form cycle read as (line, latency) pairs
+  have hbounds : ∀ y ∈ a, y.1 < 2 * k.length := by
+    cases a with
+    | nil => intro y hy; cases hy
+    | cons x rest =>
+      intro y hy
+      have := (cycle_bounds _ _ x rest hc y hy).2
+      have hx : x.1 < k.length := hst
+      omega
+  have hcperm : ((normPath k.length a).map (fun y => (lineAt k y.1, y.2))).Perm (cycleMembers k a) := by
+    refine (hbperm.map _).trans (List.Perm.of_eq ?_)
+    simp only [cycleMembers, List.map_map]
+    apply List.map_congr_left
+    intro y hy
+    have hy2 := hbounds y hy
+    simp only [Function.comp_apply, back, backLine]
+    by_cases hlt : y.1 < k.length
+    · rw [if_neg (by omega), Nat.mod_eq_of_lt hlt]
+    · rw [if_pos (by omega), Nat.mod_eq_sub_mod (by omega), Nat.mod_eq_of_lt (by omega)]
+  have hcsorted : ((normPath k.length a).map (fun y => (lineAt k y.1, y.2))).Pairwise le2 := by
+    rw [List.pairwise_map]
+    have : (normPath k.length a).Pairwise (fun x y => x.1 < y.1) := by
+      simpa [verts, List.pairwise_map] using hbinc
+    refine this.imp_of_mem ?_
+    intro x y hx hy hxy
+    exact Or.inl (wf_lineAt_lt k hwf x.1 y.1 hxy (hblt y hy))
+  have heq : e.lines.zip e.lats = (normPath k.length a).map (fun y => (lineAt k y.1, y.2)) := by
+    refine List.Perm.eq_of_pairwise (le := le2) (fun _ _ _ _ h1 h2 => le2_antisymm h1 h2) ?_ hcsorted
+      (hperm.trans hcperm.symm)
+    rw [hzip]; exact sortPairs_sorted _
+  refine ⟨normPath k.length a, hbc, hblt, hbinc, ?_, ?_, ?_⟩
+  · have : e.lines = (e.lines.zip e.lats).map (·.1) := by rw [hzip, hl]
+    rw [this, heq, List.map_map]; rfl
+  · have : e.lats = (e.lines.zip e.lats).map (·.2) := by rw [hzip, ht]
+    rw [this, heq, List.map_map]; rfl
+  · have : e.lats = (e.lines.zip e.lats).map (·.2) := by rw [hzip, ht]
+    rw [hsum, this, heq, List.map_map]; rfl
+
+/-- **lcd_key_collision_free**: the member lines determine the entry — two reported entries with the
+    same line list have the same latencies (they are the same cycle).  So keying the result by the
+    joined line numbers, as the code does, loses nothing. -/
+theorem lcd_key_collision_free (isa : Isa) (fd : Bool) (par : Params) (floor : Nat) (k : List Ins) (hwf : WFKernel k)
+    (e1 e2 : Entry) (h1 : e1 ∈ lcd isa fd par floor k) (h2 : e2 ∈ lcd isa fd par floor k)
+    (hlines : e1.lines = e2.lines) : e1.lats = e2.lats ∧ e1.latency = e2.latency := by
+  obtain ⟨b1, hc1, hlt1, _, hl1, ht1, hs1⟩ := lcd_sound_normal isa fd par floor k hwf e1 h1
+  obtain ⟨b2, hc2, hlt2, _, hl2, ht2, hs2⟩ := lcd_sound_normal isa fd par floor k hwf e2 h2
+  have hv : verts b1 = verts b2 := by
+    apply map_inj_on (lineAt k)
+    · intro x hx y hy hxy
+      obtain ⟨x', hx', rfl⟩ := List.mem_map.mp hx
+      obtain ⟨y', hy', rfl⟩ := List.mem_map.mp hy
+      exact wf_lineAt_inj k hwf _ _ (hlt1 x' hx') (hlt2 y' hy') hxy
+    · have := hl1.symm.trans (hlines.trans hl2)
+      simpa [verts, List.map_map, Function.comp_def] using this
+  have hb : b1 = b2 := by
+    cases b1 with
+    | nil => exact absurd hc1 (fun h => h)
+    | cons x1 r1 =>
+      cases b2 with
+      | nil => exact absurd hc2 (fun h => h)
+      | cons x2 r2 =>
+        have hx : x1.1 = x2.1 := by simpa [verts] using congrArg List.head? hv
+        have hc1' : Chain (streamDep isa fd par k) (x1.1 + k.length) (x1 :: r1) := hc1
+        have hc2' : Chain (streamDep isa fd par k) (x2.1 + k.length) (x2 :: r2) := hc2
+        rw [← hx] at hc2'
+        exact chain_determined _ _ _ _ hc1' hc2' hv
+  subst hb
+  exact ⟨ht1.trans ht2.symm, hs1.trans hs2.symm⟩
+
+/-- **lcd_reported_once**: no two reported entries have the same member lines — each dependency
+    cycle (as a set of member instructions) is reported exactly once. -/
+theorem lcd_reported_once (isa : Isa) (fd : Bool) (par : Params) (floor : Nat) (k : List Ins) (hwf : WFKernel k) :
+    (lcd isa fd par floor k).Pairwise (fun a b => a.lines ≠ b.lines) := by
+  have hd : (lcd isa fd par floor k).Pairwise (fun a b => ¬ (a.lines = b.lines ∧ a.lats = b.lats)) :=
+    post_dedup _ _
+  refine hd.imp_of_mem ?_
+  intro a b ha hb hab hl
+  exact hab ⟨hl, (lcd_key_collision_free isa fd par floor k hwf a b ha hb hl).1⟩
+
+-- non-vacuity: in the three-instruction ring (3 → 4 → 7 → 3') the stream positions 1 → 2 → 3 (= 0 one
+-- iteration later) → 4 (= 1 one iteration later) form a cycle starting inside the body; its members
+-- are the lines 4, 7, 3 with the latencies 1, 2, 4 — the entry `lcd` reports has lines [3, 4, 7], latency 7
+example :
+    let r (n : String) : Op := .reg { name := Text.ofString n }
+    let mk (line : Nat) (src dst sd : List Op) (lat : Rat) : Ins :=
+      { line := line, src := src, dst := dst, srcDst := sd, lat := lat, latWoLoad := none, hasLd := false,
+        isLd := false, changes := [], changesPost := [] }
+    let k := [mk 3 [r "rbx"] [r "rax"] [] 4, mk 4 [r "rax"] [r "rcx"] [] 1, mk 7 [r "rcx"] [r "rbx"] [] 2]
+    IsStreamCycle (streamDep .x86 false {} k) 3 [(1, 1), (2, 2), (3, 4)] ∧ StartsBelow 3 [(1, (1 : Rat)), (2, 2), (3, 4)] ∧
+    cycleMembers k [(1, 1), (2, 2), (3, 4)] = [(4, 1), (7, 2), (3, 4)] ∧
+    ¬ IsStreamCycle (streamDep .x86 false {} k) 3 [(1, 1), (3, 4)] := by
+  decide +kernel
 
 -- non-vacuity: a two-instruction accumulation loop has exactly one loop-carried cycle
 example :
